@@ -1,5 +1,6 @@
 """C05 — listings only advertise what the server will serve (link closure)."""
 import html
+import os
 import re
 
 from common import Check, impl_run_parallel
@@ -66,6 +67,78 @@ def url_tree():
             {"path": "weblinks/.Links", "data": u8("\n".join(lk))}]
 
 
+# menu entries that spell out a host and a port: this server's own name (exact, other case, with the root dot) with other
+# ports — another daemon on the same machine —, this server's port on other hosts, and the genuinely local spellings.
+# A view may render such an entry as a local link only if it then serves it.
+SAMEHOST = [("gopher.example", "7070"), ("GOPHER.EXAMPLE", "7070"), ("Gopher.Example", "105"), ("gopher.example", "0"), ("gopher.example", "700"),
+            ("gopher.example.", "7070"), ("www.gopher.example", "70"), ("gopher.example.org", "70"), ("other.example", "70"), ("localhost", "70"),
+            ("127.0.0.1", "7070"), ("gopher.example", "70"), ("gopher.example", "070"), ("GOPHER.example", "70"), ("gopher.example.", "70")]
+
+
+def samehost_tree():
+    gm, lk = ["ientries with a host and a port of their own"], []
+    for i, (host, port) in enumerate(SAMEHOST):
+        here = int(port) == 70 and host.lower().rstrip(".") == "gopher.example"
+        # what lives on another daemon or machine does not exist here; the spellings of this server point at real objects
+        sel = ("/dir1" if i % 2 else "/a.txt") if here else ("/software-%d" % i if i % 2 else "/pub/readme-%d.txt" % i)
+        typ = "1" if sel.startswith(("/dir1", "/software")) else "0"
+        gm.append("%sentry %d on %s:%s\t%s\t%s\t%s" % (typ, i, host, port, sel, host, port))
+        lk.append("Name=link %d on %s:%s\nType=%s\nPath=%s\nHost=%s\nPort=%s\nNumb=%d\n" % (i, host, port, typ, sel, host, port, i + 1))
+    lk.append("Name=this host, another port\nType=1\nPath=/software-plus\nHost=+\nPort=7071\n")
+    lk.append("Name=another host, this port\nType=0\nPath=/pub/elsewhere.txt\nHost=elsewhere.example\nPort=+\n")
+    lk.append("Name=this host and port\nType=0\nPath=/a.txt\nHost=+\nPort=+\n")
+    return [{"path": "daemons", "kind": "dir"}, {"path": "daemons/gophermap", "data": "\n".join(gm) + "\n"},
+            {"path": "daemonlinks", "kind": "dir"}, {"path": "daemonlinks/here.txt", "data": "x\n"},
+            {"path": "daemonlinks/.Links", "data": "\n".join(lk)}]
+
+
+def symlink_tree():
+    """symbolic links of every kind; -> (tree entries, entries outside the root)"""
+    t = [{"path": "links", "kind": "dir"}, {"path": "links/real.txt", "data": "real\n"}, {"path": "links/realdir", "kind": "dir"},
+         {"path": "links/realdir/inside.txt", "data": "inside\n"}, {"path": "links/realdir/deeper", "kind": "dir"},
+         {"path": "links/realdir/deeper/d.txt", "data": "d\n"},
+         {"path": "links/to-file.txt", "kind": "symlink", "target": "real.txt"},
+         {"path": "links/to-dir", "kind": "symlink", "target": "realdir"},
+         {"path": "links/to-dir-slash", "kind": "symlink", "target": "realdir/"},
+         {"path": "links/up-and-down.txt", "kind": "symlink", "target": "../a.txt"},
+         {"path": "links/dotted.txt", "kind": "symlink", "target": "./realdir/../real.txt"},
+         {"path": "links/chain1.txt", "kind": "symlink", "target": "chain2.txt"},
+         {"path": "links/chain2.txt", "kind": "symlink", "target": "realdir/chain3.txt"},
+         {"path": "links/realdir/chain3.txt", "kind": "symlink", "target": "inside.txt"},
+         {"path": "links/realdir/back-up", "kind": "symlink", "target": ".."},
+         {"path": "links/out-file.txt", "kind": "symlink", "target": "../../outside-notes.txt"},
+         {"path": "links/out-dir", "kind": "symlink", "target": "../../outside-dir"},
+         {"path": "links/out-abs.txt", "kind": "symlink", "target": "/etc/hostname" if os.path.exists("/etc/hostname") else "/etc/passwd"},
+         {"path": "links/out-abs-dir", "kind": "symlink", "target": "/usr/share"},
+         {"path": "links/dangling.txt", "kind": "symlink", "target": "no-such-target.txt"},
+         {"path": "links/dangling-dir", "kind": "symlink", "target": "../../no-such-dir"},
+         {"path": "links/loop.txt", "kind": "symlink", "target": "loop.txt"},
+         {"path": "links/mbox-link.mbox", "kind": "symlink", "target": "../mail.mbox"}]
+    outside = [{"path": "outside-notes.txt", "data": "kept outside the root\n"}, {"path": "outside-dir", "kind": "dir"},
+               {"path": "outside-dir/o.txt", "data": "o\n"}]
+    return t, outside
+
+
+# one-character directory names that are also UMN item types, addressed by relative paths in link files and gophermaps
+TYPE_CHARS = "0123456789+gIThisM;:<P"
+
+
+def typechar_tree():
+    t = [{"path": "journal", "kind": "dir"}, {"path": "journalmap", "kind": "dir"}]
+    lk, gm = [], ["iissues"]
+    for i, c in enumerate(TYPE_CHARS):
+        for base in ("journal", "journalmap"):
+            t.append({"path": "%s/%s" % (base, c), "kind": "dir"})
+            t.append({"path": "%s/%s/editorial.txt" % (base, c), "data": "editorial %s\n" % c})
+        lk.append("Name=editorial of %s\nType=0\nPath=%s/editorial.txt\nNumb=%d\n" % (c, c, 2 * i + 1))
+        lk.append("Name=issue %s\nType=1\nPath=%s\nNumb=%d\n" % (c, c, 2 * i + 2))
+        gm.append("0editorial of %s\t%s/editorial.txt" % (c, c))
+        gm.append("1issue %s\t%s" % (c, c))
+    t.append({"path": "journal/.Links", "data": "\n".join(lk)})
+    t.append({"path": "journalmap/gophermap", "data": "\n".join(gm) + "\n"})
+    return t
+
+
 def judge_page(p):
     """why a followed link is not what the listing advertised (None when it is)"""
     proto = p["proto"]
@@ -104,10 +177,14 @@ def run(tier):
         if i % 3 == 0:
             tr = tr + unicode_tree() + url_tree()
         elif i % 3 == 1:
-            tr = tr + url_tree()
+            tr = tr + url_tree() + samehost_tree() + typechar_tree()
+        outside = []
+        if i % 3 == 2:
+            st, outside = symlink_tree()
+            tr = tr + st
         for e in tr:
             e.setdefault("mtime", 1_700_000_000)
-        specs.append({"tree": tr, "config": trees.SITE_CONFIG, "follow_url_links": True})
+        specs.append({"tree": tr, "outside": outside, "config": trees.SITE_CONFIG, "follow_url_links": True})
     all_pages = pgsite.crawl_worlds(specs, max_pages=600)
     nlinks = 0
     bad = 0
